@@ -165,8 +165,20 @@ def handle (s : St) (op : String) (args : List Sexp) : Option (St × String) := 
   | "u.append", [h, x] => let h ← h.toNat?; inplaceU s h (.append h (canonV (← Val.ofSexp x)))
   | "u.extend", [h, xs] => let h ← h.toNat?; inplaceU s h (.extend h (← elems xs))
   | "u.iadd", [h, xs] => let h ← h.toNat?; inplaceU s h (.iadd h (← elems xs))
-  | "u.insert", [h, i, x] => let h ← h.toNat?; inplaceU s h (.insert h (← i.toNat?) (canonV (← Val.ofSexp x)))
-  | "u.setitem", [h, i, x] => let h ← h.toNat?; inplaceU s h (.setI h (← i.toNat?) (canonV (← Val.ofSexp x)))
+  -- python index normalisation: a negative index counts from the end; `insert` clamps, `u[i] = x` raises IndexError out of range
+  | "u.insert", [h, i, x] =>
+      let h ← h.toNat?; let n := (← s.1[h]?).length; let i ← i.toInt?
+      let j : Nat := if i < 0 then (i + n).toNat else i.toNat
+      inplaceU s h (.insert h j (canonV (← Val.ofSexp x)))
+  | "u.setitem", [h, i, x] =>
+      let h ← h.toNat?; let n := (← s.1[h]?).length; let i ← i.toInt?
+      if i < 0 ∧ i + n < 0 then some (s, "err IndexError") else
+      let j : Nat := if i < 0 then (i + n).toNat else i.toNat
+      inplaceU s h (.setI h j (canonV (← Val.ofSexp x)))
+  -- the public attribute names the model takes to be found on the class (`DAHeap.shadowed`), for the comparison with `dir(cls)`
+  | "shadowed", [cls] =>
+      let c ← cls.toNat?
+      pure1 (okList (((DAHeap.dictNames ++ DAHeap.dictattrNames ++ DAHeap.dictNames1).filter (DAHeap.shadowed c)).map fun k => .cell (.str k)))
   | "u.imul", [h, n] => let h ← h.toNat?; inplaceU s h (.imul h (← n.toNat?))
   | "d.sub", [d, k] =>
       let d ← daOf d
